@@ -632,8 +632,10 @@ pub fn c09_sync(prop: &'static str, lm: &LogicalMovie, movie: &Movie) -> Vec<Vio
         let dmin = devs.iter().cloned().fold(f64::MAX, f64::min);
         let constant = dmax - dmin <= 2.0;
         let first_diff = (lm.audio[0].pts.exact as f64 - lm.video[0].pts.exact as f64) - 0.0;
-        // the file presents both tracks from zero: deviation == -(a0 - v0) + (v0' ...)
-        let both_from_zero = constant && vt.elst.is_none() && at.elst.is_none();
+        // The pinned defect: no edit list, each track starts at zero. Then every audio sample deviates by
+        // exactly (first video decode time - first audio time). Only that deviation carries the known key.
+        let known_dev = lm.video[0].dts.exact as f64 - lm.audio[0].pts.exact as f64;
+        let both_from_zero = constant && vt.elst.is_none() && at.elst.is_none() && devs.iter().all(|x| (x - known_dev).abs() <= tol);
         let key = if both_from_zero {
             "constant-start-offset-lost"
         } else if constant {
